@@ -187,7 +187,7 @@ def workload(ctx, lentil):
     rng = ctx.rng
     D = lentil.detector
     R = lentil.radiometry
-    n = 120 if ctx.tier == 'quick' else 900
+    n = ctx.count(120, 900)
     # ---- collect_charge ---------------------------------------------------------------------------------
     for i in range(n):
         nw = int(rng.integers(1, 7))
